@@ -135,6 +135,19 @@ package eq
 //@   ensures PtrGiven[T]().Eqv(x, y) && PtrGiven[T]().Eqv(y, z) ==> PtrGiven[T]().Eqv(x, z)
 //@   tag trans
 //
+// ---- predicates derived from Given / PtrGiven ---------------------------------
+//
+//@ lemma givenPredicates[S any, T comparable](getter func(S) T, pgetter func(S) *T, a T, b T, p *T, q *T, s S)
+//@   prop C09
+//@   ensures GivenValue(a)(b) == (a == b)
+//@   tag value
+//@   ensures GivenPtr(p)(q) == ((p == nil && q == nil) || (p != nil && q != nil && *p == *q))
+//@   tag ptr
+//@   ensures GivenFieldValue(getter, a)(s) == (getter(s) == a)
+//@   tag fieldValue
+//@   ensures GivenFieldPtr(pgetter, p)(s) == ((p == nil && pgetter(s) == nil) || (p != nil && pgetter(s) != nil && *p == *pgetter(s)))
+//@   tag fieldPtr
+//
 // ---- ContraMap ----------------------------------------------------------------
 //
 //@ lemma contraMapEquiv[T, U any](e fp.Eq[T], fn func(U) T, x U, y U, z U)
